@@ -164,3 +164,42 @@ Theorem C17_holds_computeld_sound :
        | _, _ => False end.
 Proof. exact holds_computeld_sound. Qed.
 Print Assumptions C17_holds_computeld_sound.
+
+(* ComputeLD's Pearson r2 is NaN exactly when a sample is left after the missing-call filter
+   and one of the two dosage vectors is constant over those samples ... *)
+Theorem C17_pearson_nan_iff_constant :
+  forall cand idx,
+  pearson_ld cand idx = None <->
+  filter_gts cand idx <> [] /\
+  (constant_on fx (filter_gts cand idx) \/ constant_on fy (filter_gts cand idx)).
+Proof. exact pearson_ld_nan_iff. Qed.
+Print Assumptions C17_pearson_nan_iff_constant.
+
+(* ... and the r2 of a variant with itself is 1, or NaN if its genotypes are constant: this is the
+   case in which the index variant is not a member of its own clump, and the loop still ends. *)
+Theorem C17_pearson_self :
+  forall l : list smp, (forall p, In p l -> fst p = snd p) ->
+  pearson_r2 l = None \/ exists r, pearson_r2 l = Some r /\ (r == 1)%Q.
+Proof. exact pearson_self. Qed.
+Print Assumptions C17_pearson_self.
+
+(* ... and it finds every sample the two files share (sample names are distinct within a file) *)
+Theorem C17_overlapping_complete :
+  forall snp_names str_names i j s,
+  NoDup snp_names -> NoDup str_names ->
+  nthZ snp_names i = Some s -> nthZ str_names j = Some s ->
+  In (i, j) (overlapping snp_names str_names).
+Proof. exact overlapping_complete. Qed.
+Print Assumptions C17_overlapping_complete.
+
+(* the hypotheses of C17_exact_r2_range are satisfiable with a doubly heterozygous sample
+   (the admissible interval is not a point) *)
+Example C17_exact_range_example :
+  let t := mkt 2 1 0 1 2 1 0 1 2 in
+  tab_nonneg t /\ (0 < t_n t)%Q /\ (0 < t_p t * (1 - t_p t) * t_q t * (1 - t_q t))%Q
+  /\ (minhap t < maxhap t)%Q.
+Proof.
+  cbv zeta. unfold tab_nonneg. cbn [n00 n01 n02 n10 n11 n12 n20 n21 n22].
+  repeat split; vm_compute; congruence.
+Qed.
+Print Assumptions C17_exact_range_example.
